@@ -915,6 +915,9 @@ def rule_r8(ctx):
             rr.ok(what, sample={"rule": "C06-R8", "context": short_ctx(pr, 60), "verdict": "ExpressionTransformer(nsp).cvt(node)"})
         elif pr.outcome == "raise":
             rr.ok(what, nontrivial=False)
+        elif pr.outcome == "ok" and r is args[1] and isinstance(r, UNode) and r.kinds <= {"Constant"}:
+            # a constant contains no names and no sub-expressions: returning it unchanged is harmless
+            rr.ok(what, nontrivial=False)
         else:
             from ..tmpl import show
 
